@@ -124,18 +124,25 @@ class VecBuilder:
     """Summary of how a local std::vector<lit> is filled inside one function:
     list of items ('one', term) / ('each', range-term, guard-terms, term)."""
 
-    def __init__(self, fn, env):
+    def __init__(self, fn, env, subst=False):
         self.fn = fn
         self.env = env
+        self.subst = subst
         self.items = {}      # dloc -> [item]
         self.unrec = {}      # dloc -> [node]
+        self.declnode = {}   # dloc -> VarDecl node (None for parameters)
         self._scan()
 
     def _scan(self):
         fn, env = self.fn, self.env
+        for prm in fn.get('params') or ():
+            if is_lit_vector_type(prm.get('t')):
+                self.items[prm['loc']] = [('all', env.rename.get(prm['loc'], prm['name']) if env is not None else prm['name'])]
+                self.declnode[prm['loc']] = None
         for n in fn.nodes():
             if n.get('k') == 'VarDecl' and is_lit_vector_type(n.get('t')):
                 self.items.setdefault(n['loc'], [])
+                self.declnode[n['loc']] = n
                 init = n.get('init')
                 if isinstance(init, dict):
                     its = self._init_items(init)
@@ -157,15 +164,16 @@ class VecBuilder:
             if m in ('push_back', 'emplace_back'):
                 args = n['c'][1:]
                 if m == 'emplace_back' and len(args) != 1:
-                    term = ('lit',) + tuple(canon(a, env) for a in args)
                     from .expr import _lit
-                    term = _lit([canon(a, env) for a in args])
+                    term = _lit([canon(a, env, subst=self.subst) for a in args])
                 else:
-                    term = canon(args[0], env)
-                ctxs = self._loop_context(n)
+                    term = canon(args[0], env, subst=self.subst)
+                ctxs = self._loop_context(n, self.declnode.get(d))
                 self.items[d].append(self._wrap(term, ctxs))
             elif m in ('reserve', 'size', 'empty', 'begin', 'end', 'cbegin', 'cend', 'at', 'back', 'front', 'data'):
                 pass
+            elif m == 'resize' and self.declnode.get(d, 0) is None:
+                pass        # parameter vector compacted in place by the filtering idiom (ls[j++] = p; ls.resize(j)): still 'all(ls)'
             elif m in ('insert', 'assign', 'clear', 'pop_back', 'erase', 'resize', 'swap'):
                 self.unrec.setdefault(d, []).append(n)
 
@@ -175,37 +183,45 @@ class VecBuilder:
             c = init.get('c') or []
             if not c:
                 return []
+            c = [x for x in c if x.get('k') != 'CXXDefaultArgExpr']
+            if not c:
+                return []
             if len(c) == 1 and c[0].get('k') == 'InitListExpr':
-                return [('one', canon(x, self.env)) for x in c[0].get('c') or ()]
+                return [('one', canon(x, self.env, subst=self.subst)) for x in c[0].get('c') or ()]
             if len(c) == 1 and is_lit_vector_type(c[0].get('t')):
                 inner = c[0]
                 if inner.get('k') == 'InitListExpr':
-                    return [('one', canon(x, self.env)) for x in inner.get('c') or ()]
-                return [('all', canon(inner, self.env))]
+                    return [('one', canon(x, self.env, subst=self.subst)) for x in inner.get('c') or ()]
+                return [('all', canon(inner, self.env, subst=self.subst))]
             if len(c) >= 1 and all(x.get('t') in ('smt::lit', 'const smt::lit') for x in c):
-                return [('one', canon(x, self.env)) for x in c]
+                return [('one', canon(x, self.env, subst=self.subst)) for x in c]
             return None
         if k == 'InitListExpr':
-            return [('one', canon(x, self.env)) for x in init.get('c') or ()]
+            return [('one', canon(x, self.env, subst=self.subst)) for x in init.get('c') or ()]
         return None
 
-    def _loop_context(self, n):
-        """enclosing loops / guards between the push and the function body."""
+    def _loop_context(self, n, decl=None):
+        """enclosing loops / guards between the push and the scope of the vector's declaration (or the function body)."""
         ctx = []
+        stop = set()
+        if decl is not None:
+            stop = {id(a) for a in self.fn.ancestors(decl)}
         for a in self.fn.ancestors(n):
+            if id(a) in stop:
+                break
             k = a.get('k')
             if k == 'CXXForRangeStmt':
-                ctx.append(('each', canon(a['slots']['range'], self.env), a['slots']['var'].get('name')))
+                ctx.append(('each', canon(a['slots']['range'], self.env, subst=self.subst), a['slots']['var'].get('name'), id(a)))
             elif k in ('ForStmt', 'WhileStmt', 'DoStmt'):
-                ctx.append(('loop', canon(a['slots'].get('cond'), self.env), None))
+                ctx.append(('loop', canon(a['slots'].get('cond'), self.env, subst=self.subst), None, id(a)))
             elif k == 'IfStmt':
                 sl = a['slots']
                 pol = _inside(sl.get('then'), n)
-                ctx.append(('if', canon(sl.get('cond'), self.env), pol))
+                ctx.append(('if', canon(sl.get('cond'), self.env, subst=self.subst), pol, id(a)))
             elif k in ('SwitchStmt',):
-                ctx.append(('switch', canon(a['slots'].get('cond'), self.env), None))
+                ctx.append(('switch', canon(a['slots'].get('cond'), self.env, subst=self.subst), None, id(a)))
             elif k == 'LambdaExpr':
-                ctx.append(('lambda', None, None))
+                ctx.append(('lambda', None, None, id(a)))
         ctx.reverse()
         return ctx
 
@@ -249,21 +265,32 @@ def clause_of_call(fn, call, env, vb):
             continue
         break
     if a.get('k') == 'InitListExpr':
-        return [('one', canon(x, env)) for x in a.get('c') or ()]
+        return [('one', canon(x, env, subst=vb.subst)) for x in a.get('c') or ()]
     if a.get('k') in ('CXXConstructExpr', 'CXXTemporaryObjectExpr'):
-        c = a.get('c') or []
+        c = [x for x in (a.get('c') or []) if x.get('k') != 'CXXDefaultArgExpr']
         if len(c) == 1 and c[0].get('k') == 'InitListExpr':
-            return [('one', canon(x, env)) for x in c[0].get('c') or ()]
+            return [('one', canon(x, env, subst=vb.subst)) for x in c[0].get('c') or ()]
         if not c:
             return []
         return None
     if a.get('k') == 'DeclRefExpr':
-        if a.get('refk') == 'ParmVar':
-            return [('all', a.get('ref'))]
         s = vb.summary(a)
-        return s
+        if s is None and a.get('refk') == 'ParmVar':
+            return [('all', canon(a, env, subst=False))]
+        if s is None:
+            return None
+        # contexts shared by the call itself are not part of the schema
+        common = {id(x) for x in fn.ancestors(call)}
+        out = []
+        for it in s:
+            if it[0] == 'ctx':
+                cs = tuple(c for c in it[1] if c[3] not in common)
+                out.append(('ctx', cs, it[2]) if cs else ('one', it[2]))
+            else:
+                out.append(it)
+        return out
     if a.get('k') == 'MemberExpr':
-        return [('all', canon(a, env))]
+        return [('all', canon(a, env, subst=vb.subst))]
     return None
 
 
